@@ -38,6 +38,10 @@ Definition prompt_unpack (data : bytes) : res PromptPdu :=
   do p <- prompt_empty;
   do f <- fdir_unpack data;
   do _ <- hdr_verify_length_and_checksum (fd_hdr f) data;
+  (* data = data[:end_of_params]: the octets of this PDU in front of its CRC trailer *)
+  let end_of_params :=
+    if cf_crc (h_conf (fd_hdr f)) =? CRC_WITH_CRC then fdir_packet_len f - 2 else fdir_packet_len f in
+  let data := slice_to data end_of_params in
   let current_idx := fdir_header_len f in
   if current_idx >=? len data then Err ETooShort else
   do b <- py_get data current_idx;
